@@ -358,6 +358,22 @@ func (e *Exec) loopHeaderText(li *loopInfo) string {
 	return e.srcLine(min)
 }
 
+// tryInv evaluates an invariant; an invariant that no longer binds (unknown local, changed type)
+// yields ok=false.
+func (e *Exec) tryInv(env *Env, inv *Clause) (t string, ok bool) {
+	defer func() {
+		if r := recover(); r != nil {
+			switch r.(type) {
+			case specError, contractError:
+				ok = false
+			default:
+				panic(r)
+			}
+		}
+	}()
+	return e.evalSpecBool(env, inv.Expr, e.Con, "invariant"), true
+}
+
 func (e *Exec) enterLoop(li *loopInfo) {
 	s := e.st
 	if li.spec == nil {
@@ -365,17 +381,22 @@ func (e *Exec) enterLoop(li *loopInfo) {
 	}
 	hdr := e.loopHeaderText(li)
 	if li.spec.Header != "" && !strings.Contains(hdr, li.spec.Header) {
-		panic(contractError{fmt.Sprintf("%s: loop %d header drift: contract says %q, source line is %q", e.Con.RawName, li.ordinal, li.spec.Header, hdr)})
+		// the loop was rewritten: the invariants are still tried; what cannot be bound is a failed obligation
+		e.oblige("inv.bind", fmt.Sprintf("%d.header", li.ordinal), fmt.Sprintf("loop %d: contract expects header %q, source has %q", li.ordinal, li.spec.Header, hdr), nil, "", "false")
 	}
 	env := &Env{e: e, vars: map[string]Value{}, st: s, old: e.entry, pkgPath: e.Con.PkgPath, lookup: e.localEnv(s)}
 	for i, inv := range li.spec.Invs {
 		if !inv.activeFor(e.Prop) {
 			continue
 		}
-		t := e.evalSpecBool(env, inv.Expr, e.Con, "invariant")
 		lbl := inv.Label
 		if lbl == "" {
 			lbl = fmt.Sprintf("%d.%d", li.ordinal, i+1)
+		}
+		t, ok := e.tryInv(env, inv)
+		if !ok {
+			e.oblige("inv.bind", lbl, "invariant no longer binds to the loop's variables: "+inv.Text, inv.Props, "", "false")
+			continue
 		}
 		e.oblige("inv.entry", lbl, inv.Text, inv.Props, "", t)
 	}
@@ -423,11 +444,16 @@ func (e *Exec) enterLoop(li *loopInfo) {
 		if !inv.activeFor(e.Prop) {
 			continue
 		}
-		e.assume(e.evalSpecBool(env, inv.Expr, e.Con, "invariant"))
+		if t, ok := e.tryInv(env, inv); ok {
+			e.assume(t)
+		}
 	}
 	if li.spec.Decreases != nil {
-		d := e.evalSpecSafe(env, li.spec.Decreases, e.Con, "decreases")
-		li.header = e.define("variant", "Int", d.S[0])
+		if d, ok := e.tryVal(env, li.spec.Decreases); ok {
+			li.header = e.define("variant", "Int", d.S[0])
+		} else {
+			e.oblige("inv.bind", fmt.Sprintf("%d.decreases", li.ordinal), "variant no longer binds: "+li.spec.DecText, nil, "", "false")
+		}
 	}
 	e.cover("cover.loop", fmt.Sprint(li.ordinal), e.reach)
 }
@@ -442,15 +468,21 @@ func (e *Exec) checkBackEdge(li *loopInfo, reach string) {
 		if !inv.activeFor(e.Prop) {
 			continue
 		}
-		t := e.evalSpecBool(env, inv.Expr, e.Con, "invariant")
 		lbl := inv.Label
 		if lbl == "" {
 			lbl = fmt.Sprintf("%d.%d", li.ordinal, i+1)
 		}
+		t, ok := e.tryInv(env, inv)
+		if !ok {
+			continue
+		}
 		e.oblige("inv.preserve", lbl, inv.Text, inv.Props, "", t)
 	}
 	if li.spec.Decreases != nil && li.header != "" {
-		d := e.evalSpecSafe(env, li.spec.Decreases, e.Con, "decreases")
+		d, ok := e.tryVal(env, li.spec.Decreases)
+		if !ok {
+			return
+		}
 		e.oblige("decreases", fmt.Sprint(li.ordinal), li.spec.DecText, nil, "", "(and (<= 0 "+li.header+") (< "+d.S[0]+" "+li.header+"))")
 	}
 }
@@ -690,4 +722,18 @@ func (e *Exec) ifaceContractsFor() []*Contract {
 		}
 	}
 	return out
+}
+
+func (e *Exec) tryVal(env *Env, x *SExpr) (v Value, ok bool) {
+	defer func() {
+		if r := recover(); r != nil {
+			switch r.(type) {
+			case specError, contractError:
+				ok = false
+			default:
+				panic(r)
+			}
+		}
+	}()
+	return e.evalSpecSafe(env, x, e.Con, "decreases"), true
 }
